@@ -1,7 +1,187 @@
-//! wire interfaces of the "mac" area (see docs/AGENT_GUIDE.md for the id range)
+//! wire interfaces of the "mac" area (ids 50-59): syntax-rules (C17)
+//!
+//!   50 n d_1..d_n u_1..   direct API: parse both texts, Transform::try_new on the
+//!                         (define-syntax ...) datum, `.transform(&use)`; the result is the
+//!                         expansion datum in `write` form
+//!   51 n d_1..d_n u_1..   through Vm::eval on a fresh Vm: eval the define-syntax, eval the use
+//!                         (templates are quoted by the generator, so the value IS the expansion)
+//!
+//! Result lines: `OK <write form>`, `ERR parse`, `ERR def` (definition rejected), `ERR use`
+//! (use rejected), `PANIC`, `TIMEOUT` (expansion did not terminate).
+//!
+//! An expansion may loop forever while allocating (transform.rs expand), so every case runs
+//! in a worker child process (this same executable with MWH_MAC_WORKER=1) under an
+//! address-space limit and a per-case wall-clock limit; a worker that exceeds either is
+//! killed, the case is reported as TIMEOUT and a fresh worker is started for the next case.
 #![allow(unused_imports, dead_code)]
 use crate::text::*;
+use marwood::cell::Cell;
+use marwood::vm::transform::Transform;
+use marwood::vm::Vm;
+use std::io::{BufRead, BufReader, Write};
+use std::panic::{catch_unwind, AssertUnwindSafe};
+use std::process::{Child, ChildStdin, Command, Stdio};
+use std::sync::mpsc::{channel, Receiver, RecvTimeoutError};
+use std::sync::Mutex;
+use std::time::Duration;
 
-pub fn run(_c: &[String]) -> String {
-    "BADCASE".into()
+const CASE_TIMEOUT_MS: u64 = 3000;
+const WORKER_VMEM_KB: u64 = 700_000;
+
+fn split(c: &[String]) -> Option<(String, String)> {
+    let n: usize = c.get(1)?.parse().ok()?;
+    if c.len() < 2 + n {
+        return None;
+    }
+    Some((cps(&c[2..2 + n]), cps(&c[2 + n..])))
+}
+
+fn parse_one(s: &str) -> Option<Cell> {
+    match marwood::parse::parse_text(s) {
+        Ok((cell, None)) => Some(cell),
+        _ => None,
+    }
+}
+
+fn direct(def: &str, usef: &str) -> String {
+    let (d, u) = match (parse_one(def), parse_one(usef)) {
+        (Some(d), Some(u)) => (d, u),
+        _ => return "ERR parse".into(),
+    };
+    let t = match Transform::try_new(&d) {
+        Ok(t) => t,
+        Err(_) => return "ERR def".into(),
+    };
+    match t.transform(&u) {
+        Ok(e) => format!("OK {}", esc(&format!("{:#}", e))),
+        Err(_) => "ERR use".into(),
+    }
+}
+
+fn via_eval(def: &str, usef: &str) -> String {
+    let (d, u) = match (parse_one(def), parse_one(usef)) {
+        (Some(d), Some(u)) => (d, u),
+        _ => return "ERR parse".into(),
+    };
+    let mut vm = Vm::new();
+    if vm.eval(&d).is_err() {
+        return "ERR def".into();
+    }
+    match vm.eval(&u) {
+        Ok(e) => format!("OK {}", esc(&format!("{:#}", e))),
+        Err(_) => "ERR use".into(),
+    }
+}
+
+fn run_here(c: &[String]) -> String {
+    let id: u64 = c[0].parse().unwrap_or(0);
+    let (d, u) = match split(c) {
+        Some(x) => x,
+        None => return "BADCASE".into(),
+    };
+    match id {
+        50 => direct(&d, &u),
+        51 => via_eval(&d, &u),
+        _ => "BADCASE".into(),
+    }
+}
+
+struct Worker {
+    child: Child,
+    stdin: ChildStdin,
+    rx: Receiver<String>,
+}
+
+static WORKER: Mutex<Option<Worker>> = Mutex::new(None);
+
+fn spawn_worker() -> Worker {
+    let exe = std::env::current_exe().unwrap();
+    let mut child = Command::new("sh")
+        .arg("-c")
+        .arg(format!("ulimit -v {}; exec \"$0\"", WORKER_VMEM_KB))
+        .arg(exe)
+        .env("MWH_MAC_WORKER", "1")
+        .stdin(Stdio::piped())
+        .stdout(Stdio::null())
+        .stderr(Stdio::piped())
+        .spawn()
+        .unwrap();
+    let stdin = child.stdin.take().unwrap();
+    let stderr = child.stderr.take().unwrap();
+    let (tx, rx) = channel();
+    std::thread::spawn(move || {
+        for line in BufReader::new(stderr).lines() {
+            match line {
+                Ok(l) => {
+                    if tx.send(l).is_err() {
+                        break;
+                    }
+                }
+                Err(_) => break,
+            }
+        }
+    });
+    Worker { child, stdin, rx }
+}
+
+fn supervise(c: &[String]) -> String {
+    let mut guard = WORKER.lock().unwrap_or_else(|e| e.into_inner());
+    if guard.is_none() {
+        *guard = Some(spawn_worker());
+    }
+    let w = guard.as_mut().unwrap();
+    let line = c.join(" ");
+    let sent = writeln!(w.stdin, "{}", line).and_then(|_| w.stdin.flush());
+    let mut result: Option<String> = None;
+    let mut oom = false;
+    if sent.is_ok() {
+        loop {
+            match w.rx.recv_timeout(Duration::from_millis(CASE_TIMEOUT_MS)) {
+                Ok(l) => {
+                    if let Some(r) = l.strip_prefix("R ") {
+                        result = Some(r.to_string());
+                        break;
+                    }
+                    if l.contains("memory allocation of") {
+                        oom = true;
+                    }
+                }
+                Err(RecvTimeoutError::Timeout) => {
+                    oom = true;
+                    break;
+                }
+                Err(RecvTimeoutError::Disconnected) => break,
+            }
+        }
+    }
+    match result {
+        Some(r) => r,
+        None => {
+            let mut w = guard.take().unwrap();
+            let _ = w.child.kill();
+            let _ = w.child.wait();
+            // time limit or address-space limit exceeded: the expansion ran away
+            if oom {
+                "TIMEOUT".into()
+            } else {
+                "ABORT".into()
+            }
+        }
+    }
+}
+
+pub fn run(c: &[String]) -> String {
+    if std::env::var_os("MWH_MAC_WORKER").is_some() {
+        let r = match catch_unwind(AssertUnwindSafe(|| run_here(c))) {
+            Ok(s) => s,
+            Err(_) => "PANIC".into(),
+        };
+        // the reply channel of a worker is its (unbuffered) stderr
+        eprintln!("R {}", r);
+        r
+    } else if std::env::var_os("MWH_MAC_INPROCESS").is_some() {
+        run_here(c)
+    } else {
+        supervise(c)
+    }
 }
